@@ -58,7 +58,7 @@ func SetHookEnabled(on bool) {
 	}
 }
 
-func resetSteps()           { stepCount.Store(0) }
+func resetSteps()           { stepCount.Store(0); resolveCount.Store(0) }
 func steps() int64          { return stepCount.Load() }
 func StepBudget() int64     { return stepBudget.Load() }
 func SetStepBudget(n int64) { stepBudget.Store(n) }
